@@ -4,7 +4,7 @@ import vlib
 CFG = dict(
     imports=["From Verif.Common Require Import Packet Ipt.", "From Verif.C41 Require Import Model Spec.", "Open Scope N_scope."],
     checker="check_case",
-    n=dict(quick=160, thorough=4000),
+    n=dict(quick=160, thorough=1920),
     shard=40,
     deps=["Common"],
     rule="histories (6-31 messages) for the REAL flowtableExclusionManager (IPv4 or IPv6 instance) with a recording "
